@@ -8,7 +8,10 @@ RULE = ("bloom: key sets of size 0..3000 (duplicates, empty key, every key lengt
         "filter created from it, filter bytes compared with the model. fblock: builder event "
         "sequences (add_key* notify(offset))* as TableBuilder issues them, offsets enumerated around "
         "multiples of the 2 KiB filter range (several blocks per range, one block spanning several "
-        "ranges), every key queried at its block's start offset. Non-trivial = at least one key; "
+        "ranges), every key queried at its block's start offset. table: files built by the real "
+        "TableBuilder (versions of one key straddling block and filter-range boundaries; blocks that "
+        "start a few bytes around multiples of 2048): every stored key must match the filter consulted "
+        "at its own block's offset. Non-trivial = at least one key; "
         "distinct by sha1 of the case.")
 TRUSTED = [
     "modelled: BloomFilterPolicy::{new,hash,create_filter,key_may_match}, FilterBlockBuilder, FilterBlockReader (byte exact)",
@@ -104,17 +107,54 @@ def prop_ok(impl_line, spec, case):
     return len(toks) >= 3 and toks[2] == spec
 
 
+def gen_tfilter(tier, rng):
+    """tables built by the real TableBuilder: which keys it hands to the filter builder and at
+    which offsets it announces blocks. (a) several versions of one user key straddling data-block
+    and 2 KiB filter-range boundaries; (b) one entry per block with value lengths swept so that
+    blocks start a few bytes before / at / after multiples of 2048."""
+    cases = []
+    i = 0
+    n = 40 if tier == "quick" else 1500
+    for _ in range(n):
+        es = []
+        seq = 1000
+        for u in range(rng.randrange(1, 4)):
+            user = "x%02x" % (0x61 + u)
+            for _ in range(rng.randrange(1, 7)):
+                ln = rng.choice([0, 5, 300, 700, 1000, 1500, 2040, 2600])
+                es.append("E%s:%d:%d:p%d.%d.1" % (user, seq, rng.choice([1, 1, 1, 0]), ln, rng.randrange(256)))
+                seq -= 1
+        bs = rng.choice([64, 512, 1024, 2048, 4096])
+        cases.append("tf%d %d:1 %s" % (i, bs, " ".join(es)))
+        i += 1
+    lens = list(range(1990, 2062)) + list(range(985, 1035)) if tier == "thorough" else \
+        rng.sample(list(range(2005, 2035)), 12) + rng.sample(list(range(995, 1025)), 6)
+    for ln in lens:
+        es = ["Ex%02x:%d:1:p%d.%d.1" % (0x61 + k, 50 - k, ln, k) for k in range(7)]
+        cases.append("tf%d 64:1 %s" % (i, " ".join(es)))
+        i += 1
+    return cases
+
+
+def tfilter_ok(impl_line, spec, case):
+    t = impl_line.split(" ")
+    return len(t) >= 6 and t[2] == "1" and "0" not in t[5]
+
+
 def suites(tier, seed, rng):
     return [lib.SuiteRun("bloom", corpus_cases("bloom") + gen_bloom(tier, rng), prop_ok),
-            lib.SuiteRun("fblock", corpus_cases("fblock") + gen_fblock(tier, rng), prop_ok)]
+            lib.SuiteRun("fblock", corpus_cases("fblock") + gen_fblock(tier, rng), prop_ok),
+            lib.SuiteRun("table", gen_tfilter(tier, rng), tfilter_ok)]
 
 
 def replay_suites(rp):
-    return [lib.SuiteRun(rp["suite"], [rp["case"]], prop_ok)]
+    return [lib.SuiteRun(rp["suite"], [rp["case"]], tfilter_ok if rp["suite"] == "table" else prop_ok)]
 
 
 def still_fails(suite, case, workdir):
     il, mobs, spec = lib.run_single(suite, case, workdir)
+    if suite == "table":
+        return len(il.split(" ")) >= 6 and not tfilter_ok(il, spec, case)
     return spec != "none" and not prop_ok(il, spec, case)
 
 
